@@ -36,11 +36,16 @@ def check(ctx):
     ctx.attempt(_lock_tract)
     ctx.attempt(_forwarding)
     ctx.attempt(_deadparam)
+    ctx.attempt(_sibling_verifiers)
+    from .layouts import layout_classes      # the config reader validates `layout.<name>` against this table
+    ctx.attempt(layout_classes)
+    ctx.attempt(_init_override_order)
     from .c08 import calltime_defaults     # keyword > config string > MasterConfig: the last link
     ctx.attempt(calltime_defaults, rule='LOCK')
     ctx.attempt(_tract_creation)
     ctx.attempt(forward.check_all, module_suffixes=('config.config', 'plssdesc.plssdesc', 'plssdesc.plss_parse', 'tract.tract', 'tract.tract_parse', 'containers.containers'))
     ctx.attempt(common.none_vs_false, [f for f in ctx.repo.funcs.values() if f.module.name.endswith('config.config')])
+    ctx.attempt(lockdown, ctx.repo.func('Tract.from_twprgesec'), only=('default_ns', 'default_ew'), source='config')
 
 
 def _cfg(ctx, a):
@@ -238,7 +243,7 @@ def _lock(ctx, fi, kwargs, mapping, cls):
     lockdown(ctx, fi)
 
 
-def lockdown(ctx, fi, only=None, rule='LOCK'):
+def lockdown(ctx, fi, only=None, rule='LOCK', source='self'):
     """Argument-over-attribute discipline of a parse()/preprocess() method:
     (a) `P = self.P` runs only when the argument P was not given (its guard
     tests P itself); (b) once P is locked down, self.P is not read again."""
@@ -247,7 +252,7 @@ def lockdown(ctx, fi, only=None, rule='LOCK'):
     for x in walk_local(fi.node):
         if isinstance(x, ast.Assign) and isinstance(x.targets[0], ast.Name) \
                 and x.targets[0].id in fi.params() and (only is None or x.targets[0].id in only) and any(
-                    isinstance(y, ast.Attribute) and norm(y) == f"self.{x.targets[0].id}" for y in ast.walk(x.value)):
+                    isinstance(y, ast.Attribute) and norm(y) == f"{source}.{x.targets[0].id}" for y in ast.walk(x.value)):
             locked.setdefault(x.targets[0].id, []).append(x)
     for p_, assigns in locked.items():
         allowed = {id(x) for a in assigns for x in ast.walk(a.value)}
@@ -255,16 +260,16 @@ def lockdown(ctx, fi, only=None, rule='LOCK'):
             for t_, _pol in guards(a):
                 allowed |= {id(x) for x in ast.walk(t_)}
         stray = [x for x in walk_local(fi.node) if isinstance(x, ast.Attribute) and isinstance(x.ctx, ast.Load)
-                 and norm(x) == f"self.{p_}" and id(x) not in allowed]
+                 and norm(x) == f"{source}.{p_}" and id(x) not in allowed]
         n += 1
         ctx.check(not stray, rule, f"{fi.qualname}: after the lock-down only the local `{p_}` is used",
-                  detail_bad=f"`{norm(enclosing_stmt(stray[0]))[:70] if stray else ''}` reads self.{p_} again after `{p_}` was "
+                  detail_bad=f"`{norm(enclosing_stmt(stray[0]))[:70] if stray else ''}` reads {source}.{p_} again after `{p_}` was "
                              f"locked down: a given `{p_}` argument is bypassed there",
                   key=f"{rule}|{fi.qualname}|stray-attr|{p_}", where=common.loc(fi, stray[0]) if stray else None)
     # every fallback is of the form `if P is None: P = self.P` (argument wins)
     for x in walk_local(fi.node):
         if isinstance(x, ast.Assign) and isinstance(x.targets[0], ast.Name) \
-                and norm(x.value) == f"self.{x.targets[0].id}" and x.targets[0].id in fi.params() \
+                and norm(x.value) == f"{source}.{x.targets[0].id}" and x.targets[0].id in fi.params() \
                 and (only is None or x.targets[0].id in only):
             p = x.targets[0].id
             gs = [(t, pol) for _e, t, pol in literals(guards(x))]
@@ -279,7 +284,7 @@ def lockdown(ctx, fi, only=None, rule='LOCK'):
                 falsy_ok = set()
             if p in falsy_ok and (p, False) in gs and (f"{p} is None", True) not in gs:
                 n += 1
-                ctx.violation(rule, f"{fi.qualname}: `{p} = self.{p}` only when the argument is not given",
+                ctx.violation(rule, f"{fi.qualname}: `{p} = {source}.{p}` only when the argument is not given",
                               f"`if not {p}: {norm(x)}`: `{p}` is a switch / number setting, so an explicit {p}=False "
                               f"(or 0) passed by the caller is taken for 'not given' and overridden by the configured value",
                               key=f"{rule}|{fi.qualname}|fallback-guard|{p}", where=common.loc(fi, x))
@@ -288,7 +293,7 @@ def lockdown(ctx, fi, only=None, rule='LOCK'):
             mentions_p = any(_re.search(rf"(?<![\w.]){_re.escape(p)}\b", t) for t, pol in gs)
             bad = not gs or given or not mentions_p
             n += 1
-            ctx.tri(ok, bad and not ok, rule, f"{fi.qualname}: `{p} = self.{p}` only when the argument is not given",
+            ctx.tri(ok, bad and not ok, rule, f"{fi.qualname}: `{p} = {source}.{p}` only when the argument is not given",
                     detail_bad=f"`{norm(x)}` runs under {gs or 'no condition'}, which does not ask whether `{p}` was given: "
                                f"the attribute overrides a given argument",
                     key=f"{rule}|{fi.qualname}|fallback-guard|{p}", where=common.loc(fi, x))
@@ -488,6 +493,61 @@ def keyword_wins_depth(ctx, fi=None):
         else:
             ctx.ok('LOCK', f"{construct} [{case}]", f"min={got['qq_depth_min']}, max={got['qq_depth_max']}")
     ctx.floor('depth keyword cases propagated', n_cases, 8)
+
+
+def _sibling_verifiers(ctx):
+    """verify_default_ns / verify_default_ew are the same function up to the
+    direction (ns/ew): they accept a word by its first letter."""
+    a = ctx.repo.func('config.config:verify_default_ns')
+    b = ctx.repo.func('config.config:verify_default_ew')
+
+    def shape(fi):
+        t = ' ; '.join(norm(s) for s in fi.node.body if not (isinstance(s, ast.Expr) and isinstance(s.value, ast.Constant)))
+        import re as _re
+        return _re.sub(r"(?i)(?<![a-z])(ns|ew)(?![a-z])|(?<=_)(ns|ew)\b|(NS|EW)(?=Error)", 'D', t)
+    sa, sb = shape(a), shape(b)
+    ctx.tri(sa == sb, sa != sb, 'SIB', 'verify_default_ns and verify_default_ew are the same check up to the direction',
+            detail_bad=f"the two verifiers differ:\n    ns: {sa[:200]}\n    ew: {sb[:200]}\n(one of them reads another character of "
+                       f"the word, or another legal set: 'east' / 'west' are treated differently from 'north' / 'south')",
+            key="SIB|verify_default|ns-ew", where=b.loc)
+
+
+def _init_override_order(ctx):
+    """In Tract.__init__ / PLSSDesc.__init__ a keyword that overrides the
+    config string (`if P is not None: self.P = P`) is applied AFTER
+    `self.config = config` (whose setter writes the config's own value)."""
+    for spec in ('Tract.__init__', 'PLSSDesc.__init__'):
+        fi = ctx.repo.func(spec)
+        cfg_st = [i for i, st in enumerate(fi.node.body) if isinstance(st, ast.Assign)
+                  and any(norm(t) == 'self.config' for t in st.targets)]
+        if not cfg_st:
+            ctx.undecided('ORDER', f"{spec}: keyword overrides come after the config is applied", 'no `self.config = ...` statement')
+            continue
+        pos = cfg_st[-1]
+        n = 0
+        for i, st in enumerate(fi.node.body):
+            for x in ast.walk(st):
+                if isinstance(x, ast.Assign) and len(x.targets) == 1 and isinstance(x.targets[0], ast.Attribute) \
+                        and norm(x.targets[0].value) == 'self' and isinstance(x.value, ast.Name) \
+                        and x.value.id == x.targets[0].attr and x.value.id in fi.params():
+                    p = x.value.id
+                    lits = [(t, pol) for _e, t, pol in literals(guards(x))]
+                    if (f"{p} is None", False) not in lits and (p, True) not in lits:
+                        continue            # a plain initial store, not an override
+                    try:
+                        settings = set(ctx.fold.get_attr('config.config', 'Config', '_CONFIG_ATTRIBUTES'))
+                    except Exception:
+                        settings = set()
+                    if p not in settings:
+                        continue
+                    n += 1
+                    ctx.check(i > pos, 'ORDER', f"{spec}: the `{p}` keyword is applied after the config string",
+                              'override follows `self.config = config`',
+                              f"`{norm(x)}` runs before `self.config = config`: the config setter then writes its own `{p}` over "
+                              f"the keyword, so the config string beats the keyword",
+                              key=f"ORDER|{spec}|override-before-config|{p}", where=common.loc(fi, x))
+        if n == 0:
+            ctx.undecided('ORDER', f"{spec}: keyword overrides come after the config is applied", 'no `if P is not None: self.P = P` override found')
 
 
 def _forwarding(ctx):
